@@ -94,6 +94,16 @@ class Module:
                 from .consts import inline_new_compiled_regexes
 
                 self.inlined_regexes = inline_new_compiled_regexes(self.tree, set(str(_k["<consts>"]).split()))
+        # new module-level string constants are read as the literals they name (octacheck.consts)
+        self.inlined_string_constants = 0
+        if not os.environ.get("OCTACHECK_NO_INLINE"):
+            from .inline import known_functions as _kf2
+
+            _k2 = _kf2().get(name)
+            if _k2 is not None and "<consts>" in _k2:
+                from .consts import inline_new_string_constants
+
+                self.inlined_string_constants = inline_new_string_constants(self.tree, set(str(_k2["<consts>"]).split()))
         # one-expression closures and partial objects bound to a local are read as the calls they abbreviate (octacheck.closures)
         self.reduced_abbreviations = 0
         if not os.environ.get("OCTACHECK_NO_INLINE") and ("partial(" in text or "\n        def " in text or "\n    def " in text):
